@@ -1,5 +1,6 @@
 import RemocModel.Base.Wiring
 import RemocModel.Base.WiringForward
+import RemocModel.Link.ForwardWire5
 
 /-!
 # C05 — channel halves embedded in values are wired one-to-one to their counterparts
@@ -372,6 +373,43 @@ theorem forward_requests_paired (ca cb : Cfg) (f : Fwd) (h : FReachable .asCoded
     simp only [PairTask.key, Prod.mk.injEq] at hkey
     rw [← hkey.2.1, ← hkey.2.2]; exact this
 
+
+theorem flatMap_ids_congr (bs : List Batch) (h : ∀ B ∈ bs, B.ports.map (·.id) = B.ids) :
+    bs.flatMap (fun B => B.ports.map (·.id)) = bs.flatMap (·.ids) := by
+  induction bs with
+  | nil => rfl
+  | cons B rest ih =>
+    simp only [List.flatMap_cons]
+    rw [h B (by simp), ih (fun B' hB' => h B' (by simp [hB']))]
+
+/-- **The ids on the downstream wire.**  As long as no downstream operation failed or was abandoned, the ids
+carried by the `PortData` frames the forwarder has put on the downstream link, followed by the ids the `connect`
+in progress has still to send, are exactly — in order, batch by batch — the ids of the port requests it received:
+those of all forwarded batches, then those of the batch being connected.  Between two operations (`idle`) the ids
+on the wire are the received ids. -/
+theorem forward_ids_on_wire (ca cb : Cfg) (f : Fwd) (h : FReachable .asCoded ca cb f)
+    (hne : f.ph ≠ .done .errSend) :
+    portIds f.b.emitted ++ curRest f.b =
+      f.batches.flatMap (·.ids) ++ (match f.ph with | .connect ids _ => ids | _ => []) ∧
+    (f.ph = .idle → portIds f.b.emitted = f.batches.flatMap (·.ids)) := by
+  have hw := wire_reachable .asCoded ca cb f h hne
+  have hp := fport_reachable .asCoded ca cb f h
+  have hc := (fjoint_reachable .asCoded ca cb f h).core
+  have hb : f.batches.flatMap (fun B => B.ports.map (·.id)) = f.batches.flatMap (·.ids) :=
+    flatMap_ids_congr f.batches (fun B hB => (hp.batches B hB).ids)
+  have hconn : f.ph.connIds = (match f.ph with | .connect ids _ => ids | _ => []) := by
+    cases hph : f.ph with
+    | connect ids ports => simp only [Phase.connIds]; exact hp.connIds ids ports hph
+    | _ => rfl
+  constructor
+  · rw [hw, wireIds, hb, hconn]
+  · intro hph
+    have hcr : curRest f.b = [] := by
+      apply curRest_of_kind
+      rw [hc.cur, hph]; simp [Phase.curKind]
+    rw [hcr, List.append_nil] at hw
+    rw [hw, wireIds, hb, hph]; simp [Phase.connIds]
+
 /-- non-vacuity, and seeded bug (a): a batch of two requests with ids 10 and 20 is forwarded on the fresh ports
 5 and 6.  As coded, the task of request 10 awaits the connect that carries id 10; with the reversed pairing
 (`reqs.zip(connects.rev())`) it awaits the connect that carries id 20 — `forward_requests_paired` fails for the
@@ -386,6 +424,8 @@ example : (frun .asCoded portsCfg portsCfg (finit portsCfg portsCfg) portsRun).t
       [{ upIdx := 0, upId := 10, out := ⟨5, 10⟩, resp := some .accepted, st := .piped },
        { upIdx := 1, upId := 20, out := ⟨6, 20⟩, resp := some (.failed true), st := .rejected true }] ∧
     (frun .asCoded portsCfg portsCfg (finit portsCfg portsCfg) portsRun).b.emitted = [.ports [10, 20] true true] ∧
+    portIds (frun .asCoded portsCfg portsCfg (finit portsCfg portsCfg) portsRun).b.emitted = [10, 20] ∧
+    (frun .asCoded portsCfg portsCfg (finit portsCfg portsCfg) portsRun).batches.flatMap (·.ids) = [10, 20] ∧
     (frun .asCoded portsCfg portsCfg (finit portsCfg portsCfg) portsRun).ph = .idle := by decide
 
 example : (frun .reversed portsCfg portsCfg (finit portsCfg portsCfg) portsRun).tasks =
